@@ -2,7 +2,7 @@
    The pinned tree lost a newly created operation in some interleavings (theorems at the end of this
    file, kept as the record of the defect); the repair runs both handlers under one node mutex. *)
 From Coq Require Import List NArith ZArith Bool Arith.
-Require Import Node.Serial Node.SerialProofs Node.SerialLock Node.SerialLockProofs.
+Require Import Node.Serial Node.SerialProofs Node.SerialLock Node.SerialLockProofs Node.ResetPoll Node.ResetPollProofs.
 Require Gen.Skeletons.
 Import ListNotations.
 
@@ -40,3 +40,32 @@ Proof. exact serialisable_refuted. Qed.
 Theorem C14_sequential_orders :
   pending_after (repeat true 7 ++ repeat false 5) = [2] /\ pending_after (repeat false 5 ++ repeat true 7) = [2].
 Proof. exact sequential_orders. Qed.
+
+(* ---- a state reset (POST /resetState) against the poller: OPEN FINDING, nothing serialises the two
+   (Node/ResetPoll.v: the poller's tick as LoadOffset+GetMessages, then ProcessMessage / SaveOffset per
+   message, every call going to the current database; the reset swaps a fresh database in) ---- *)
+
+(* the full statement is refuted for ANY board: the node has handled k >= 1 messages, at least one
+   more is on the board, the request is served after the poller has fetched its tick's messages -
+   however long the poller goes on afterwards, the fresh state is never given position 0 of the board
+   (neither sequential order: both give it the whole board) *)
+Theorem C14_reset_inside_a_tick_refuted :
+  forall n k sched, 1 <= k -> k < n ->
+  let w := run n ([false; true] ++ sched) (start k) in
+  ~ In 0 (d_del (w_new w)) /\ w_swapped w = true.
+Proof. exact reset_inside_a_tick_loses_the_board. Qed.
+Print Assumptions C14_reset_inside_a_tick_refuted.
+
+(* partial: boards of up to 6 messages, every k, EVERY instant of the request (154 cases, decided by
+   computation): the outcome is the sequential one - the fresh state is given the whole board, in
+   order, and ends at offset n - exactly when the request is served between two ticks *)
+Theorem C14_reset_serialisable_iff_between_ticks_partial :
+  forall n k p, n <= 6 -> 1 <= k <= n -> p < 2 * (n - k) + 4 ->
+  replayed_all n (reset_after n k p (4 * n + 8)) = idle_at n k p.
+Proof. exact reset_serialisable_iff_idle. Qed.
+
+Theorem C14_reset_sequential_orders :
+  forall n k, n <= 6 -> 1 <= k <= n ->
+  replayed_all n (reset_after n k 0 (4 * n + 8)) = true /\
+  replayed_all n (reset_after n k (2 * (n - k) + 1) (4 * n + 8)) = true.
+Proof. exact sequential_orders_replay. Qed.
